@@ -17,6 +17,7 @@ limitations under the License.
 package main
 
 import (
+	"sort"
 	"strconv"
 	"strings"
 
@@ -144,6 +145,12 @@ func (c *MessageBuildContext) GetOneOfNames() []string {
 		}
 		s[i] = name
 	}
+
+	// Sort oneof names if required, so that the output does not depend on the declaration order
+	if c.config.Sort {
+		sort.Strings(s)
+	}
+
 	return s
 }
 
